@@ -55,11 +55,11 @@ func (c19) Budget(tier string) runner.Budget {
 
 func (c19) Describe() runner.Description {
 	return runner.Description{
-		Rule: "each history is 3..40 seeded group-chain operations on a booted node: AddGroup(valid successor), AddGroup(wrong predecessor / unknown parent / duplicate), two different valid successors submitted concurrently under the seeded scheduler (exactly one may be accepted), remove-last-group (the operation a group-fork switch performs), restart. After every operation the invariant is checked on the live node AND (fault enumeration, exhaustive per history) on a fresh incarnation booted from the disk image taken right after that operation: LastGroup reachable from genesis by predecessor links, Count = list length, GetGroupByHeight(i) = i-th element for i<count and nil for i in [count,count+3], every listed group retrievable by id, removed ones not, GetSyncGroupsById = next <=5 successors; compared with a slice reference model. evaluations = invariant evaluations (live + restarted). distinct_nontrivial = distinct op-kind sequences containing a remove. Crash points INSIDE save/remove (between their individual store writes) are also booted; the property's quantifier only covers restarts after operations, so those images are only required to boot, and their self-consistency is reported as probes (midop_*), not as violations.",
+		Rule: "each history is 3..40 seeded group-chain operations on a booted node: AddGroup(valid successor; its unauthenticated GroupHeight wire field holds the right value, 0, a stale position, a later position or 2^64-1), AddGroup(wrong predecessor / unknown parent / duplicate), two different valid successors submitted concurrently under the seeded scheduler (exactly one may be accepted), remove-last-group (the operation a group-fork switch performs), restart. After every operation the invariant is checked on the live node AND (fault enumeration, exhaustive per history) on a fresh incarnation booted from the disk image taken right after that operation: LastGroup reachable from genesis by predecessor links, Count = list length, GetGroupByHeight(i) = i-th element for i<count and nil for i in [count,count+3], every listed group retrievable by id, removed ones not, GetSyncGroupsById = next <=5 successors; compared with a slice reference model. evaluations = invariant evaluations (live + restarted). distinct_nontrivial = distinct op-kind sequences containing a remove. Crash points INSIDE save/remove (between their individual store writes) are also booted; the property's quantifier only covers restarts after operations, so those images are only required to boot, and their self-consistency is reported as probes (midop_*), not as violations.",
 		Assumptions: []string{"stub ConsensusHelper.CheckGroup accepts every group; group signatures are not what C19 is about", "the sqlite group index (second store) is not read by the oracle and starts empty in every incarnation"},
 		Real:        []string{"core/groupchain.go (AddGroup, save, remove, lookups, iterator, sync lookups)", "middleware/db + goleveldb on simulated storage", "middleware/mysql (sqlite group index)", "node boot: middleware, service, core init"},
 		Stub:        []string{"ConsensusHelper", "network (not started)", "NTP clock"},
-		FaultKinds:  []string{"restart_after_op", "crash_inside_op", "concurrent_add"},
+		FaultKinds:  []string{"restart_after_op", "crash_inside_op", "concurrent_add", "wire_height_field_wrong"},
 		Exhaustive:  true,
 	}
 }
@@ -245,6 +245,21 @@ func (c19) Exec(raw json.RawMessage, st *simrt.Stats, log *simrt.Log) *simrt.Vio
 				g.Id = m.list[len(m.list)-1]
 			}
 			g.Header.Hash = g.Header.GenHash()
+			// the height field of a group object that arrives from a peer is not covered by the header hash: it
+			// may hold anything (0, a stale position, a huge number); the chain assigns the real position
+			switch op.G % 4 {
+			case 1:
+				g.GroupHeight = uint64(len(m.list)) + uint64(op.G%5) + 1
+				st.Fault("wire_height_field_wrong")
+			case 2:
+				g.GroupHeight = 1<<64 - 1
+				st.Fault("wire_height_field_wrong")
+			case 3:
+				if len(m.list) > 1 {
+					g.GroupHeight = uint64(len(m.list) - 1)
+					st.Fault("wire_height_field_wrong")
+				}
+			}
 			err := n.Groups.AddGroup(g)
 			log.Add("%d %s g=%d bad=%s err=%v", i, op.K, op.G, op.Bad, err != nil)
 			if op.K == "add" {
